@@ -26,6 +26,9 @@ struct SockSample {
 
 const SOCK_MAGIC: i32 = 0x534f434b;
 const SOCK_SAMPLE_SIZE: usize = 40;
+// One byte more than a sample, so that a datagram that is too long is seen
+// as too long instead of being truncated to the size of a valid sample.
+const SOCK_RECV_BUFFER_SIZE: usize = SOCK_SAMPLE_SIZE + 1;
 
 #[derive(Debug)]
 enum SampleError {
@@ -84,6 +87,15 @@ fn deserialize_sample(
     Ok(sample)
 }
 
+fn receive_sample(
+    result: Result<usize, std::io::Error>,
+    buf: [u8; SOCK_RECV_BUFFER_SIZE],
+) -> Result<SockSample, SampleError> {
+    let mut sample_buf = [0; SOCK_SAMPLE_SIZE];
+    sample_buf.copy_from_slice(&buf[..SOCK_SAMPLE_SIZE]);
+    deserialize_sample(result, sample_buf)
+}
+
 pub(crate) struct SockSourceTask<C: 'static + NtpClock + Send, Controller: SourceController> {
     index: ClockId,
     socket: UnixDatagram,
@@ -114,7 +126,7 @@ where
                 SockRecv(Result<usize, std::io::Error>),
             }
 
-            let mut buf = [0; SOCK_SAMPLE_SIZE];
+            let mut buf = [0; SOCK_RECV_BUFFER_SIZE];
 
             let selected: SelectResult = tokio::select! {
                 result = self.socket.recv(&mut buf) => {
@@ -123,7 +135,7 @@ where
             };
 
             match selected {
-                SelectResult::SockRecv(result) => match deserialize_sample(result, buf) {
+                SelectResult::SockRecv(result) => match receive_sample(result, buf) {
                     Ok(sample) => {
                         debug!("received {:?}", sample);
                         let leap = match sample.leap {
